@@ -66,7 +66,7 @@ def run(ctx, res):
               "varint decoder may touch %s bytes, the extent table assumes 10 / 5" % vb)
     f = prog.need("mtbl_reader_init_fd", U)
     res.saw(f)
-    ev = APE.run(prog, cg, f, bound=1)
+    ev = APE.run(prog, cg, f, bound=APE.BOUND)
     res.floor("C19.R1", 6)
     res.tables["C19.paths"] = len(ev.paths)
     madv = prog.func("reader_init_madvise", U)
@@ -177,7 +177,7 @@ def run(ctx, res):
     res.floor("C19.R2", 3)
     bi = prog.need("block_init", "mtbl/block.c")
     res.saw(bi)
-    evb = APE.run(prog, cg, bi, bound=1)
+    evb = APE.run(prog, cg, bi, bound=APE.BOUND)
     szp = bi.params[1]["name"]
     for p in evb.paths:
         if p.end != "exit":
@@ -204,7 +204,7 @@ def run(ctx, res):
                       % (sorted(small) if small else None, sorted(ro) if ro else None), bi.loc(bi.body), p.describe(bi))
     bii = prog.need("block_iter_init", "mtbl/block.c")
     res.saw(bii)
-    evi = APE.run(prog, cg, bii, bound=1)
+    evi = APE.run(prog, cg, bii, bound=APE.BOUND)
     seen = False
     for p in evi.paths:
         for (a, b), v in p.cons.items():
